@@ -221,12 +221,12 @@ Proof.
 Qed.
 
 (* Allocate success: LIFETIME reported = timer armed (in whole seconds), nothing installed yet *)
-Theorem allocate_success cfg s src tid c tr lt fam df rp s' acts attrs :
-  step cfg s (EReq src tid c (RqAllocate tr lt fam df rp) false) = (s', acts) ->
+Theorem allocate_success cfg s src tid c tr lt fam df rp ep rt mt s' acts attrs :
+  step cfg s (EReq src tid c (RqAllocate tr lt fam df rp ep rt mt) false) = (s', acts) ->
   In (Success src MAllocate tid attrs) acts -> find_alloc src (allocs s) = None ->
   exists a relay, allocs s' = allocs s ++ [a] /\ a_client a = src /\ a_relay a = relay /\
     a_perms a = [] /\ a_chans a = [] /\ a_dl a = now s + granted_lifetime cfg lt /\
-    attrs = [SRelayed relay; SLifetime (granted_lifetime cfg lt / sec); SMapped src] /\
+    attrs = [SRelayed relay; SLifetime (granted_lifetime cfg lt / sec); SMapped src] ++ (if ep then [SToken mt] else []) /\
     (exists uid, authenticate cfg s c = AuthOK uid /\ a_user a = uid).
 Proof.
   cbn [step]. intros H Hin Hnone.
